@@ -188,6 +188,7 @@ func (w *rpWorld) step(ev byte) (viol string) {
 		}
 		return w.check("reset")
 	case 'b':
+		w.badSeen = true
 		w.bad = true
 		writesBefore := w.totalWrites()
 		err := w.mp.Process(nil)
@@ -353,11 +354,12 @@ func TestReplayProcessor(t *testing.T) {
 		trig, preview, min, max int
 		constant               bool
 	}
-	cfgs := []cfg{{1, 1, 1, 3, true}, {2, 1, 0, 2, false}, {0, 2, 2, 2, true}, {1, 0, 1, 2, false}}
+	cfgs := []cfg{{1, 1, 1, 3, true}, {2, 1, 0, 2, false}, {0, 2, 2, 2, true}, {1, 0, 1, 2, false}, {1, 1, 3, 5, false}, {3, 2, 2, 4, true}}
 	// scripted long histories first (beyond the breadth-first depth): a test recording
 	// is 21 frames; sustained motion; motion bursts around the max-secs cap
 	scripts := []string{"t" + strings.Repeat("n", 25) + "t" + strings.Repeat("n", 25), strings.Repeat("m", 12), "n" + strings.Repeat("m", 3) + strings.Repeat("n", 6) + strings.Repeat("m", 5),
-		"mm" + strings.Repeat("n", 3) + "mm" + strings.Repeat("n", 5), "t" + strings.Repeat("m", 24)}
+		"mm" + strings.Repeat("n", 3) + "mm" + strings.Repeat("n", 5), "t" + strings.Repeat("m", 24),
+		"nmmnmnnnnnn", "nmnmmnnnnn", "nmnnmnnnnn", "mmmwmmwmmm", "mmmdmmdmmm", "nmmbmmmnnn", "nmmrmmmnnn", "nmmnnbmmmm", "nmmnnrmmmm", "mmSmmSmmmm", "nmmWmmnnWnmm", "nmmPnnnPmmm"}
 	for _, c := range cfgs {
 		for _, sc := range scripts {
 			w := newRPWorld(c.trig, c.preview, c.min, c.max, c.constant)
